@@ -1,8 +1,10 @@
 (* C03 — Every input placeholder is bound to exactly the value its expression
    names.  Property theorems only; proofs are in Proofs/. *)
+From Coq Require Import Permutation.
 From SQLair.Base Require Import Bytes.
 From SQLair.Model Require Import GenConsts Reflect TypeInfo Bind.
-From SQLair.Proofs Require Import ItoaFacts BindFacts.
+From SQLair.Proofs Require Import ItoaFacts BindFacts InsertProofs BindInputsProofs
+  StructFieldsProofs ExampleData.
 
 (* Distinct placeholder numbers give distinct argument names (strconv.Itoa is
    injective), and every placeholder token renders as "@" ++ that name: the
@@ -34,3 +36,144 @@ Print Assumptions C03_standalone.
 Example C03_standalone_applies :
   nums (q_sql (add_inputs qb_init [VLeaf 7 false; VLeaf 8 false])) = [0; 1].
 Proof. vm_compute. reflexivity. Qed.
+
+(* (a) For every query built without error (INSERTs with bulk, single, literal
+   and omitted columns included) the placeholders of the SQL and the named
+   arguments correspond one to one: no duplicate names, a placeholder for
+   every argument, an argument for every placeholder. *)
+Theorem C03_bijection :
+  forall env tbe args pq,
+    bind_inputs env tbe args = BOk pq ->
+    NoDup (map fst (pq_params pq)) /\
+    (forall n, In n (nums (pq_toks pq)) <-> In (arg_name n) (map fst (pq_params pq))) /\
+    (forall name, In name (map fst (pq_params pq)) -> exists n, name = arg_name n).
+Proof. exact bind_inputs_bijection. Qed.
+Print Assumptions C03_bijection.
+
+(* ... and more precisely, with k arguments, the names are sqlair_0 ..
+   sqlair_(k-1) in some order and the placeholder numbers are 0 .. k-1. *)
+Theorem C03_bijection_exact :
+  forall env tbe args pq,
+    bind_inputs env tbe args = BOk pq ->
+    Permutation (map fst (pq_params pq)) (map arg_name (seq 0 (length (pq_params pq)))) /\
+    forall n, In n (nums (pq_toks pq)) <-> n < length (pq_params pq).
+Proof. exact bind_inputs_perm. Qed.
+Print Assumptions C03_bijection_exact.
+
+(* two INSERTs over a slice of three Persons (bulk id/st, omitted name, a
+   literal, a single-valued map key repeated in every row): 14 arguments *)
+Example C03_bijection_applies :
+  exists pq,
+    bind_inputs ex_env [ex_insert; ex_insert]
+      [ex_people [person 1 2 3 4 true; person 5 6 7 8 true; person 9 10 11 12 true]; AVal 4 ex_map]
+      = BOk pq /\
+    nums (pq_toks pq) = [0; 3; 4; 1; 3; 5; 2; 3; 6; 7; 10; 11; 8; 10; 12; 9; 10; 13] /\
+    length (pq_params pq) = 14.
+Proof. eexists. split; [vm_compute; reflexivity|]. split; vm_compute; reflexivity. Qed.
+
+(* (b) Outside an INSERT every occurrence of an input expression gets its own
+   placeholders, numbered in textual order, and the arguments are the values
+   of the occurrences in textual order. *)
+Theorem C03_order :
+  forall env m es q q',
+    add_all env m q es = BOk q' -> Forall not_insert es ->
+    let vals := flat_map (input_values env m) es in
+    q_inputCount q' = q_inputCount q + length vals /\
+    nums (q_sql q') = nums (q_sql q) ++ seq (q_inputCount q) (length vals) /\
+    q_named q' = q_named q ++ named_from (q_inputCount q) vals.
+Proof. exact add_all_order. Qed.
+Print Assumptions C03_order.
+
+Theorem C03_order_query :
+  forall env tbe args pq,
+    bind_inputs env tbe args = BOk pq -> Forall not_insert tbe ->
+    exists m, validate_inputs env args [] = BOk m /\
+      nums (pq_toks pq) = seq 0 (length (pq_params pq)) /\
+      pq_params pq = named_from 0 (flat_map (input_values env m) tbe).
+Proof. exact bind_inputs_order. Qed.
+Print Assumptions C03_order_query.
+
+Example C03_order_applies :
+  exists pq, bind_inputs ex_env ex_query ex_args = BOk pq /\ Forall not_insert ex_query /\
+    map snd (pq_params pq) = [L 50 false; L 60 false; L 61 false; L 62 false].
+Proof.
+  eexists. split; [vm_compute; reflexivity|]. split; [repeat constructor|vm_compute; reflexivity].
+Qed.
+
+(* $S[:] : the elements of the slice, in order; none for an empty slice *)
+Theorem C03_slice_values :
+  forall env m st nl elems,
+    t2v_get m st = Some (VSlice nl elems) ->
+    locate_params env (LSlice st) m =
+      BOk {| p_vals := elems; p_omit := false; p_bulk := false; p_argtype := st |}.
+Proof. exact locate_slice. Qed.
+Print Assumptions C03_slice_values.
+
+(* (c) $T.member: the index path that getStructFields recorded for the db tag
+   leads to the value an independent search for that tag finds in the struct
+   value: fields in order, a tagged exported field matches by tag name, an
+   embedded struct having the tag is searched through its (non-nil) pointer.
+   With a nil embedded pointer on the way both sides are None. *)
+Theorem C03_member_value :
+  forall env fuel t fields m f v,
+    get_struct_fields fuel env [] t = BOk fields ->
+    find_tag m fields = Some f ->
+    value_conforms env fuel t v ->
+    field_by_index v (sf_index f) = lookup_tag env fuel t m v.
+Proof. exact member_value. Qed.
+Print Assumptions C03_member_value.
+
+(* the tag name getStructFields records is the part before the first comma *)
+Theorem C03_tag_name :
+  forall tag name omit, parse_tag tag = BOk (name, omit) -> name = tag_name tag.
+Proof. exact parse_tag_name. Qed.
+Print Assumptions C03_tag_name.
+
+(* the type has the tag (also through embedded structs) iff discovery found it *)
+Theorem C03_member_found :
+  forall env fuel t fields m,
+    get_struct_fields fuel env [] t = BOk fields ->
+    has_tag env fuel t m = is_some (find_tag m fields).
+Proof. exact member_has_tag. Qed.
+Print Assumptions C03_member_found.
+
+Theorem C03_member_located :
+  forall env fuel t fields m f mm v,
+    get_struct_fields fuel env [] t = BOk fields ->
+    find_tag m fields = Some f ->
+    t2v_get mm t = Some v ->
+    value_conforms env fuel t v ->
+    locate_params env (LField f) mm =
+      match lookup_tag env fuel t m v with
+      | Some x => BOk {| p_vals := [x]; p_omit := is_zero x && sf_omit f; p_bulk := false;
+                         p_argtype := t |}
+      | None => BErr ENilEmbedded
+      end.
+Proof. exact locate_member. Qed.
+Print Assumptions C03_member_located.
+
+Example C03_member_applies :
+  exists fields f,
+    get_struct_fields ex_fuel ex_env [] 0 = BOk fields /\ find_tag s_street fields = Some f /\
+    sf_index f = [2; 0] /\
+    value_conforms ex_env ex_fuel 0 (person 1 2 3 4 false) /\
+    lookup_tag ex_env ex_fuel 0 s_street (person 1 2 3 4 false) = Some (L 3 false) /\
+    value_conforms ex_env ex_fuel 0 person_nil /\
+    lookup_tag ex_env ex_fuel 0 s_street person_nil = None /\
+    lookup_tag ex_env ex_fuel 0 s_z person_nil = Some (L 4 false).
+Proof.
+  eexists. eexists. split; [vm_compute; reflexivity|]. split; [vm_compute; reflexivity|].
+  split; [reflexivity|].
+  split; [cbn; repeat split; right; eexists; split; [reflexivity|]; repeat split|].
+  split; [vm_compute; reflexivity|].
+  split; [cbn; repeat split; left; reflexivity|]. split; vm_compute; reflexivity.
+Qed.
+
+(* $M.key: the value stored under that key *)
+Theorem C03_map_value :
+  forall env mt key mm nl entries v,
+    t2v_get mm mt = Some (VMap nl entries) ->
+    ((exists p, locate_params env (LMapKey mt key) mm = BOk p /\ p_vals p = [v]) <->
+     assoc_str key entries = Some v).
+Proof. exact locate_mapkey. Qed.
+Print Assumptions C03_map_value.
